@@ -1935,7 +1935,8 @@ class PseudoNetCDFFile(PseudoNetCDFSelfReg, object):
         """
         from collections.abc import Iterable
         outf = self._copywith(props=True, dimensions=False)
-        if isinstance(other, Iterable):
+        # (a netCDF4-backed file looks iterable but refuses to iterate)
+        if isinstance(other, Iterable) and not hasattr(other, 'variables'):
             fs = [self] + list(other)
         else:
             fs = [self, other]
